@@ -69,3 +69,15 @@ Theorem C15_parallel_value_is_sequential_value_iter :
       (fst (finish_seq t (flat_map (trace p) src) src p)).
 Proof. intros r p src t ordered sched Hw H1 Hop stop Hd. apply exec_value_iter; assumption. Qed.
 Print Assumptions C15_parallel_value_is_sequential_value_iter.
+
+(** a filter.map computation over five elements, collected by three workers under round robin *)
+Example C15_example_value :
+  let r := mkRunner (Some 5%N) 3%N (RExact 2%N) in
+  let p := ps_par (build [1; 2; 3; 4; 5]%Z
+                     (to_ops 0 [DFilter (KeepMod 2 1); DMap (Affine 10 0)])) in
+  let src := [1; 2; 3; 4; 5]%Z in
+  let s := mrun r 5 (@nostop) (round_robin 3 20) in
+  all_doneb s = true /\
+  finish TCollectVec (pe_of p src) 5 (kind_of p) 0 (ws s) = RList [10; 30; 50]%Z /\
+  fst (finish_seq TCollectVec (flat_map (trace p) src) src p) = RList [10; 30; 50]%Z.
+Proof. vm_compute. repeat split. Qed.
